@@ -45,6 +45,8 @@ op_tables(json_t *args)
 
     json_object_set_new(res, "b64map", json_string(JOSE_B64_MAP));
     json_object_set_new(res, "keymax", json_integer(KEYMAX));
+    json_object_set_new(res, "cfg_err_base", json_integer((json_int_t) _JOSE_CFG_ERR_BASE));
+    json_object_set_new(res, "cfg_err_names", hx_cfg_errnames());
     json_object_set_new(res, "max_compressed", json_integer(MAX_COMPRESSED_SIZE));
 
     for (const jose_hook_alg_t *a = jose_hook_alg_list(); a; a = a->next) {
